@@ -162,6 +162,28 @@ def ops : List Op := [
         | none => "ERR"
       | none => "BADREQ"
     | _ => "BADREQ"),
+  -- fields: file text (hex); the trees of the expression texts in order, `;`-separated, `ERR` = rejected by the parser
+  ("globals", fun f => match f with
+    | [text, trees] =>
+      match Bytes.ofHex text with
+      | none => "BADREQ"
+      | some input =>
+        let ts : Option (List (Option Expr)) :=
+          if trees == "-" then some []
+          else (trees.splitOn ";").mapM fun t =>
+            if t == "ERR" then some none
+            else match SExp.parse t with
+              | some sx => (AstWire.decExpr sx).map some
+              | none => none
+        match ts with
+        | none => "BADTREE"
+        | some ts =>
+          match parseGlobals input ts with
+          | none => "ERR"
+          | some gl =>
+            "OK " ++ ";".intercalate ((Model.Eval.sortByKey gl).map fun kv =>
+              Bytes.toHexWire kv.1 ++ "=" ++ Ops.Value.untokens (Ops.Value.encValue (Ops.Value.canonical kv.2)))
+    | _ => "BADREQ"),
   ("setglobals", fun f => match f with
     | [sources, files, globals] =>
       match decFilesWithText sources files, decFrame globals with
